@@ -1840,9 +1840,9 @@ theorem smartcorePredict_total (rf : α → α → α) (su : SpeedUnit) (gu : Gr
   fun _ _ _ _ => ⟨_, _, rfl⟩
 
 /-- the `Smartcore` arm -/
-theorem load_smartcore_eq (rf : α → α → α) (su : SpeedUnit) (gu : GradeUnit) (ru : EnergyRateUnit)
+theorem load_smartcore_eq (cap : Nat) (rf : α → α → α) (su : SpeedUnit) (gu : GradeUnit) (ru : EnergyRateUnit)
     (ideal adj : Option α) :
-    loadPredictionModel rf true .smartcore su gu ru ideal adj =
+    loadPredictionModel cap rf true .smartcore su gu ru ideal adj =
       ((match ideal with
         | some x => (.ok x : Res α)
         | none => findMinEnergyRate (smartcorePredict rf su gu ru)).bind fun idealRate =>
@@ -1852,46 +1852,15 @@ theorem load_smartcore_eq (rf : α → α → α) (su : SpeedUnit) (gu : GradeUn
   unfold loadPredictionModel
   rfl
 
-/-- the `Interpolate` arm over a random forest is `InterpolationSpeedGradeModel::new` over that forest,
-with the configured speed bounds / bins and grade bounds / bins in their places -/
-theorem load_interpolate_smartcore_eq (rf : α → α → α) (su : SpeedUnit) (gu : GradeUnit)
-    (ru : EnergyRateUnit) (s0 s1 : α) (sb : Nat) (g0 g1 : α) (gb : Nat) (ideal adj : Option α) :
-    loadPredictionModel rf true (.interpolate .smartcore s0 s1 sb g0 g1 gb) su gu ru ideal adj =
-      (SpeedGradeModel.new rf su s0 s1 sb gu g0 g1 gb ru).bind fun m =>
-        (match ideal with
-         | some x => (.ok x : Res α)
-         | none => findMinEnergyRate m.predict).bind fun idealRate =>
-          .ok { model := m.predict, speedUnit := su, gradeUnit := gu, energyRateUnit := ru,
-                idealEnergyRate := idealRate,
-                realWorldEnergyAdjustment := match adj with | some a => a | none => one } := by
-  obtain ⟨v, hv, _, _, _⟩ := findMinEnergyRateFrom_spec (smartcorePredict rf su gu ru)
-    (smartcorePredict_total rf su gu ru) sweepSpeeds f64Max
-  obtain ⟨xs, hx⟩ := linspace_ok s0 s1 sb
-  obtain ⟨ys, hy⟩ := linspace_ok g0 g1 gb
-  have hfun : ∀ (i a : α), (fun (s g : α) =>
-      (Record.predict (⟨smartcorePredict rf su gu ru, su, gu, ru, i, a⟩ : Record α)
-        s su g gu (one : α) ru.associatedDistanceUnit).bind fun e => (.ok e.1 : Res α))
-      = fun s g => .ok ((createEnergy (rf s g * a) ru (one : α) ru.associatedDistanceUnit).1) := by
-    intro i a
-    funext s g
-    simp [Record.predict, smartcorePredict, Res.bind, speed_convert_self, grade_convert_self]
-  unfold loadPredictionModel
-  simp only [loadPredictionModel, if_true, findMinEnergyRate, hv, Res.ok_bind, hx, hy]
-  rw [hfun, fillGrid_pure]
-  unfold SpeedGradeModel.new gridValue
-  simp only [hx, hy, Res.ok_bind]
-  cases hval : validate2 xs ys
-    (List.map (fun s => List.map (fun g => (createEnergy (rf s g * one) ru (one : α) ru.associatedDistanceUnit).1) ys) xs) <;> rfl
-
 /-- the model type names ONNX somewhere (the feature is off in this build) -/
 def ModelType.hasOnnx : ModelType α → Bool
   | .smartcore => false
   | .onnx => true
   | .interpolate u _ _ _ _ _ _ => u.hasOnnx
 
-theorem load_unreadable (rf : α → α → α) : ∀ (mt : ModelType α) (su : SpeedUnit) (gu : GradeUnit)
+theorem load_unreadable (cap : Nat) (rf : α → α → α) : ∀ (mt : ModelType α) (su : SpeedUnit) (gu : GradeUnit)
     (ru : EnergyRateUnit) (ideal adj : Option α),
-    loadPredictionModel rf false mt su gu ru ideal adj = .err .build := by
+    loadPredictionModel cap rf false mt su gu ru ideal adj = .err .build := by
   intro mt
   induction mt with
   | smartcore => intro su gu ru ideal adj; unfold loadPredictionModel; rfl
@@ -1901,9 +1870,9 @@ theorem load_unreadable (rf : α → α → α) : ∀ (mt : ModelType α) (su : 
     unfold loadPredictionModel
     simp only [ih su gu ru none none, Res.err_bind]
 
-theorem load_onnx (rf : α → α → α) (fileOk : Bool) : ∀ (mt : ModelType α), mt.hasOnnx = true →
+theorem load_onnx (cap : Nat) (rf : α → α → α) (fileOk : Bool) : ∀ (mt : ModelType α), mt.hasOnnx = true →
     ∀ (su : SpeedUnit) (gu : GradeUnit) (ru : EnergyRateUnit) (ideal adj : Option α),
-    loadPredictionModel rf fileOk mt su gu ru ideal adj = .err .build := by
+    loadPredictionModel cap rf fileOk mt su gu ru ideal adj = .err .build := by
   intro mt
   induction mt with
   | smartcore => intro h; cases h
@@ -2335,15 +2304,64 @@ theorem rateOf_smartcore (rf : α → α → α) (su : SpeedUnit) (gu : GradeUni
   funext s g
   simp [rateOf, smartcorePredict, speed_convert_self, grade_convert_self]
 
+theorem linspaceAlloc_cases (cap : Nat) (x0 xend : α) (n : Nat) :
+    (cap < n ∧ linspaceAlloc cap x0 xend n = .err .alloc) ∨
+      ((n = 0 ∨ n ≤ cap) ∧ linspaceAlloc cap x0 xend n = linspace x0 xend n) := by
+  cases n with
+  | zero => exact Or.inr ⟨Or.inl rfl, rfl⟩
+  | succ m =>
+    by_cases h : cap < m + 1
+    · exact Or.inl ⟨h, by simp [linspaceAlloc, h]⟩
+    · exact Or.inr ⟨Or.inr (by omega), by simp [linspaceAlloc, h]⟩
+
+/-- `newAlloc` refuses exactly the counts that cannot be allocated, and is `new` otherwise -/
+theorem newAlloc_eq (cap : Nat) (underlying : α → α → α) (su : SpeedUnit) (s0 s1 : α) (sb : Nat)
+    (gu : GradeUnit) (g0 g1 : α) (gb : Nat) (ru : EnergyRateUnit) :
+    SpeedGradeModel.newAlloc cap underlying su s0 s1 sb gu g0 g1 gb ru =
+      if cap < sb ∨ cap < gb ∨ cap < sb * gb then .err .alloc
+      else SpeedGradeModel.new underlying su s0 s1 sb gu g0 g1 gb ru := by
+  unfold SpeedGradeModel.newAlloc
+  obtain ⟨xs, hx⟩ := linspace_ok s0 s1 sb
+  obtain ⟨ys, hy⟩ := linspace_ok g0 g1 gb
+  rcases linspaceAlloc_cases cap s0 s1 sb with ⟨h1, e1⟩ | ⟨h1, e1⟩
+  · rw [e1, if_pos (Or.inl h1)]; rfl
+  · rw [e1, hx, Res.ok_bind]
+    rcases linspaceAlloc_cases cap g0 g1 gb with ⟨h2, e2⟩ | ⟨h2, e2⟩
+    · rw [e2, if_pos (Or.inr (Or.inl h2))]; rfl
+    · rw [e2, hy, Res.ok_bind]
+      by_cases h3 : cap < sb * gb
+      · rw [if_pos h3, if_pos (Or.inr (Or.inr h3))]
+      · rw [if_neg h3, if_neg]
+        rintro (h | h | h)
+        · rcases h1 with h1 | h1
+          · omega
+          · omega
+        · rcases h2 with h2 | h2
+          · omega
+          · omega
+        · exact h3 h
+
+/-- what `newAlloc` returns, `new` returns: every theorem about the models of `new` applies -/
+theorem newAlloc_ok_new (cap : Nat) (underlying : α → α → α) (su : SpeedUnit) (s0 s1 : α) (sb : Nat)
+    (gu : GradeUnit) (g0 g1 : α) (gb : Nat) (ru : EnergyRateUnit) (m : SpeedGradeModel α)
+    (h : SpeedGradeModel.newAlloc cap underlying su s0 s1 sb gu g0 g1 gb ru = .ok m) :
+    SpeedGradeModel.new underlying su s0 s1 sb gu g0 g1 gb ru = .ok m ∧ sb ≤ cap ∧ gb ≤ cap ∧ sb * gb ≤ cap := by
+  rw [newAlloc_eq] at h
+  by_cases hc : cap < sb ∨ cap < gb ∨ cap < sb * gb
+  · rw [if_pos hc] at h; cases h
+  · rw [if_neg hc] at h
+    exact ⟨h, by omega, by omega, by omega⟩
+
 /-- the `Interpolate` arm over *any* underlying model type that loaded: it is
-`InterpolationSpeedGradeModel::new` over the underlying record's rates, with the configured bounds and bins -/
-theorem load_interpolate_eq (rf : α → α → α) (u : ModelType α) (su : SpeedUnit) (gu : GradeUnit)
+`InterpolationSpeedGradeModel::new` (with its allocations) over the underlying record's rates, with the
+configured bounds and bins -/
+theorem load_interpolate_eq (cap : Nat) (rf : α → α → α) (u : ModelType α) (su : SpeedUnit) (gu : GradeUnit)
     (ru : EnergyRateUnit) (s0 s1 : α) (sb : Nat) (g0 g1 : α) (gb : Nat) (ideal adj : Option α)
-    (urec : Record α) (hu : loadPredictionModel rf true u su gu ru none none = .ok urec)
+    (urec : Record α) (hu : loadPredictionModel cap rf true u su gu ru none none = .ok urec)
     (htot : ∀ s qsu g qgu, ∃ v, urec.model s qsu g qgu = .ok (v, ru))
     (hadj : urec.realWorldEnergyAdjustment = one) (hru : urec.energyRateUnit = ru) :
-    loadPredictionModel rf true (.interpolate u s0 s1 sb g0 g1 gb) su gu ru ideal adj =
-      (SpeedGradeModel.new (rateOf urec.model su gu) su s0 s1 sb gu g0 g1 gb ru).bind fun m =>
+    loadPredictionModel cap rf true (.interpolate u s0 s1 sb g0 g1 gb) su gu ru ideal adj =
+      (SpeedGradeModel.newAlloc cap (rateOf urec.model su gu) su s0 s1 sb gu g0 g1 gb ru).bind fun m =>
         (match ideal with
          | some x => (.ok x : Res α)
          | none => findMinEnergyRate m.predict).bind fun idealRate =>
@@ -2358,20 +2376,28 @@ theorem load_interpolate_eq (rf : α → α → α) (u : ModelType α) (su : Spe
     funext s g
     obtain ⟨v, hv⟩ := htot s su g gu
     simp [Record.predict, hv, rateOf, hadj, hru, Res.bind]
-  unfold loadPredictionModel
-  simp only [hu, Res.ok_bind, hx, hy]
-  rw [hfun, fillGrid_pure]
-  unfold SpeedGradeModel.new gridValue
-  simp only [hx, hy, Res.ok_bind]
-  cases hval : validate2 xs ys
-    (List.map (fun s => List.map (fun g =>
-      (createEnergy (rateOf urec.model su gu s g * one) ru (one : α) ru.associatedDistanceUnit).1) ys) xs) <;> rfl
+  unfold loadPredictionModel SpeedGradeModel.newAlloc
+  simp only [hu, Res.ok_bind]
+  rcases linspaceAlloc_cases cap s0 s1 sb with ⟨_, e1⟩ | ⟨_, e1⟩
+  · simp only [e1, Res.err_bind]
+  · rcases linspaceAlloc_cases cap g0 g1 gb with ⟨_, e2⟩ | ⟨_, e2⟩
+    · simp only [e1, e2, hx, Res.ok_bind, Res.err_bind]
+    · simp only [e1, e2, hx, hy, Res.ok_bind]
+      by_cases h3 : cap < sb * gb
+      · simp only [if_pos h3, Res.err_bind]
+      · simp only [if_neg h3]
+        rw [hfun, fillGrid_pure]
+        unfold SpeedGradeModel.new gridValue
+        simp only [hx, hy, Res.ok_bind]
+        cases hval : validate2 xs ys
+          (List.map (fun s => List.map (fun g =>
+            (createEnergy (rateOf urec.model su gu s g * one) ru (one : α) ru.associatedDistanceUnit).1) ys) xs) <;> rfl
 
 /-- every record `load_prediction_model` returns, whatever the (nested) model type: its model answers
 every input with a rate in the configured unit, and it carries the configured units and adjustment -/
-theorem loaded_spec (rf : α → α → α) : ∀ (mt : ModelType α) (su : SpeedUnit) (gu : GradeUnit)
+theorem loaded_spec (cap : Nat) (rf : α → α → α) : ∀ (mt : ModelType α) (su : SpeedUnit) (gu : GradeUnit)
     (ru : EnergyRateUnit) (ideal adj : Option α) (r : Record α),
-    loadPredictionModel rf true mt su gu ru ideal adj = .ok r →
+    loadPredictionModel cap rf true mt su gu ru ideal adj = .ok r →
     (∀ s qsu g qgu, ∃ v, r.model s qsu g qgu = .ok (v, ru)) ∧ r.speedUnit = su ∧ r.gradeUnit = gu ∧
       r.energyRateUnit = ru ∧ r.realWorldEnergyAdjustment = (match adj with | some a => a | none => one) := by
   intro mt
@@ -2384,14 +2410,15 @@ theorem loaded_spec (rf : α → α → α) : ∀ (mt : ModelType α) (su : Spee
     exact ⟨fun s qsu g qgu => ⟨_, rfl⟩, rfl, rfl, rfl, rfl⟩
   | onnx =>
     intro su gu ru ideal adj r h
-    rw [load_onnx rf true .onnx rfl] at h; cases h
+    rw [load_onnx cap rf true .onnx rfl] at h; cases h
   | interpolate u s0 s1 sb g0 g1 gb ih =>
     intro su gu ru ideal adj r h
-    cases hu : loadPredictionModel rf true u su gu ru none none with
+    cases hu : loadPredictionModel cap rf true u su gu ru none none with
     | ok urec =>
       obtain ⟨htot, _, _, hru, hadj⟩ := ih su gu ru none none urec hu
-      rw [load_interpolate_eq rf u su gu ru s0 s1 sb g0 g1 gb ideal adj urec hu htot hadj hru] at h
-      obtain ⟨m, hm, h⟩ := Res.bind_eq_ok h
+      rw [load_interpolate_eq cap rf u su gu ru s0 s1 sb g0 g1 gb ideal adj urec hu htot hadj hru] at h
+      obtain ⟨m, hm', h⟩ := Res.bind_eq_ok h
+      obtain ⟨hm, _⟩ := newAlloc_ok_new cap _ su s0 s1 sb gu g0 g1 gb ru m hm'
       obtain ⟨i, _, h⟩ := Res.bind_eq_ok h
       cases h
       refine ⟨?_, rfl, rfl, rfl, rfl⟩
